@@ -159,7 +159,12 @@ func (e editor) clearOnDifferentChoiceCase(existing *Selection, want meta.Meta) 
 	}
 }
 
-func (e editor) clearChoiceCase(sel *Selection, c *meta.ChoiceCase) error {
+func (e editor) clearChoiceCase(constrained *Selection, c *meta.ChoiceCase) error {
+	// what the request hides (fields, content, depth ... parameters, a condition that is false) is
+	// data of the old case all the same and goes with it
+	unconstrained := *constrained
+	unconstrained.Constraints = &Constraints{}
+	sel := &unconstrained
 	i := newChoiceCaseIterator(sel, c)
 	m := i.nextMeta()
 	for m != nil {
